@@ -49,6 +49,13 @@ def build():
     p.models["fn.__call__"] = lambda interp, fv, args, kwargs: fv.attrs["fn"](interp, args, kwargs)
     p.models["hasattr:bz2"] = lambda i, n: True
     REG = registrations()
+    # adapter classes in front of a caller's file object (plain classes with read() around a `_fileobj`), whatever their name
+    ADAPTERS = []
+    for mod in (NU, NP):
+        for cname, cnode in SourceModule.get(mod).classes.items():
+            meths = {n.name for n in cnode.body if isinstance(n, ast.FunctionDef)}
+            if {"read", "__init__"} <= meths and not cnode.bases and "_fileobj" in ast.unparse(cnode):
+                ADAPTERS.append((mod, cname))
 
     def factory(kind):
         def h(interp, args, kwargs):
@@ -145,6 +152,9 @@ def build():
         o = Opaque("srcfile", None)
         o.attrs["hasattr"] = {"peek": bool(peek), "seekable": True, "tell": True, "seek": True}
         o.attrs["is_seekable"] = bool(interp.ctx.choose(2, "seekable")) if peek else True
+        # a peekable source is an io.BufferedReader: read(n) returns n bytes unless the stream ends.  Anything else (raw stream, duck-typed
+        # reader) may answer with fewer bytes than asked for
+        o.attrs["exact_reads"] = True if peek else not interp.ctx.choose(2, "short-reads")
         return o
 
     # Stream model.  FIRST = the bytes of the stream from the position at entry (POS0); POS = current position relative to it.
@@ -176,8 +186,17 @@ def build():
         ctx = interp.ctx
         ctx.events.append(("read", args[0]))
         rest, nn = _rest(interp), ops.as_int_term(args[0])
-        ctx.assume(nn >= 0)
-        m = z3.If(nn < z3.Length(rest), nn, z3.Length(rest))
+        ctx.check("call.read.requires.non-negative-size", nn >= 0)
+        full = z3.If(nn < z3.Length(rest), nn, z3.Length(rest))
+        if recv.attrs.get("exact_reads", True):
+            m = full
+        else:
+            # io.RawIOBase.read(n): "fewer than n bytes may be returned"; b"" only at the end of the stream (or n == 0), None = "no data
+            # right now" on a non-blocking stream
+            m = z3.Int(ctx.fresh_name("got"))
+            ctx.assume(z3.And(m >= 0, m <= full, z3.Implies(full > 0, m >= 1)))
+            if ctx.branch(z3.And(full == 0, z3.Bool(ctx.fresh_name("answers-None"))), "read-answers-None"):
+                return None
         out = Sym(BYTES, z3.SubSeq(rest, 0, m))
         ctx.ghost["POS"] = Sym(INT, ops.as_int_term(ctx.ghost["POS"]) + m)
         return out
@@ -228,7 +247,7 @@ def build():
     from pyvc.values import Alternatives
     p.add(Contract(
         NU, "_detect_compressor", props=["C03"], globals=glob, ghost=dict(FIRST=BYTES, POS0=INT, POS=INT), setup=stream_setup,
-        inline={"_get_prefixes_max_len"},
+        inline={"_get_prefixes_max_len"} | {c + ".__init__" for _, c in ADAPTERS},
         # streams without peek() (io.BytesIO) are loaded from their start: joblib rewinds them to offset 0 (relied upon by its own
         # tests), so the object has to start there - domain precondition, the property does not speak of objects at an offset of a buffer
         requires=["has_peek(fileobj) or POS0 == 0"],
@@ -262,6 +281,69 @@ def build():
                     filename=STR, mmap_mode=OneOf(None, "r", "r+", "w+", "c")),
         ensures=rens,
     ))
+
+    # ------------------------------------------------------------------ the byte source of the unpickler: exact reads
+    # pickle's Python Unpickler (the one joblib subclasses) takes read(n) at its word: BINBYTES / BINUNICODE / frames build their value from
+    # whatever comes back and fetch the next opcode after it.  io.BufferedIOBase.read(n) (BufferedReader, BytesIO, the compressed readers
+    # joblib wraps in a BufferedReader) returns n bytes unless the stream ends; io.RawIOBase.read(n) and duck-typed readers may return
+    # FEWER (one system call; pipes, sockets, network file systems, FileIO above 2 GiB).  C03 quantifies over "an open file object":
+    # whatever reader NumpyUnpickler hands to pickle must return n bytes unless the stream ends.
+    EXACT = "all_requested_bytes_unless_the_stream_ends"
+
+    def unpickler_init(interp, args, kwargs):
+        ctx = interp.ctx
+        me, reader = args[0], args[1]
+        fh = ctx.ghost["FILE_HANDLE"]
+        if isinstance(reader, Opaque):
+            exact = "BufferedIOBase" in reader.attrs.get("isinstance", ())
+            same = reader is fh
+        elif isinstance(reader, SObj):
+            c = interp.pack.contract_for(NU, reader.cls + ".read") or interp.pack.contract_for(NP, reader.cls + ".read")
+            exact = c is not None and EXACT in c.ensures
+            same = any(v is fh for v in reader.fields.values())
+        else:
+            raise Unsupported("reader %r" % (reader,))
+        ctx.check("NumpyUnpickler.__init__/pickle-reads-from-the-given-file", same)
+        ctx.check("NumpyUnpickler.__init__/pickle-reads-through-an-exact-reader", exact)
+        ctx.events.append(("Unpickler.__init__",))
+        return None
+
+    def src_kind(interp):
+        k = [("IOBase", "BufferedIOBase"), ("IOBase", "RawIOBase"), ()][interp.ctx.choose(3, "reader-kind")]
+        o = Opaque("srcfile", None, isinstance=k, readline=Opaque("boundmethod", None))
+        interp.ctx.ghost["FILE_HANDLE"] = o
+        return o
+
+    p.models["import:numpy"] = lambda interp: Opaque("numpy", None)
+    p.add(Contract(
+        NP, "NumpyUnpickler.__init__", props=["C03", "C14"], inline={c + ".__init__" for _, c in ADAPTERS},
+        params=dict(self=ObjOf("NumpyUnpickler"), filename=STR, file_handle=src_kind, ensure_native_byte_order=BOOL, mmap_mode=OneOf(None, "r", "r+", "w+", "c")),
+        calls={"Unpickler.__init__": unpickler_init},
+        globals={"os": lambda i: Opaque("osmod", None, path=Opaque("ospath", None))},
+        ensures={"pickle_initialised_once": "n_events('Unpickler.__init__') == 1",
+                 "arrays_are_read_from_the_given_file": "self.file_handle is file_handle and self.filename is filename and self.mmap_mode is mmap_mode"},
+    ))
+    p.models["ospath.dirname"] = lambda i, r, a, k: STR.fresh(i.ctx, "dirname")
+
+    # an adapter class in front of an unbuffered reader (whatever its name): read(size) loops until size bytes or the end of the stream.
+    #   stream model as above (FIRST / POS): one underlying read(n) returns between 1 and n of the bytes left (0 only when none is left,
+    #   or None - "no data right now" of a non-blocking raw stream, treated as the end)
+    p.spec_funcs["stream_slice"] = lambda interp, a, n: Sym(BYTES, z3.SubSeq(interp.ctx.ghost["FIRST"].term, ops.as_int_term(a), ops.as_int_term(n)))
+    p.spec_funcs["stream_len"] = lambda interp: Sym(INT, z3.Length(interp.ctx.ghost["FIRST"].term))
+    for mod, cname in ADAPTERS:
+        p.add(Contract(
+            mod, cname + ".read", props=["C03", "C14"],
+            params=dict(self=lambda interp, cname=cname: SObj(cname, {"_fileobj": Opaque("srcfile", None, exact_reads=False)}), size=INT),
+            requires=["size >= 0", "0 <= POS and POS <= stream_len()"],
+            ghost=dict(FIRST=BYTES, POS0=INT, POS=INT), modifies=["ghost:POS"], returns=BYTES,
+            ensures={EXACT: "len(result) == min(size, stream_len() - old(POS))",
+                     "the_bytes_of_the_stream_in_order": "result == stream_slice(old(POS), len(result))",
+                     "nothing_consumed_beyond_the_result": "POS == old(POS) + len(result)"},
+            loops={1: Loop("while len(data) < size",
+                           invariant={"so_far": "data == stream_slice(old(POS), len(data)) and POS == old(POS) + len(data) and len(data) <= size and POS <= stream_len()"},
+                           decreases="size - len(data)",  # C14 'always terminates': an endless stream of empty answers at the end must not spin
+                           kinds={"data": BYTES, "more": BYTES})},
+        ))
 
     # ------------------------------------------------------------------ dump: the total decision table
     def np_pickler(interp, args, kwargs):
